@@ -69,8 +69,9 @@ def run_group(scratch, group, timeout=1800, only=None):
     for name, meta in group.checks.items():
         if only and name not in only:
             continue
-        m = re.search(r"test \S*%s \.\.\. (\w+)" % re.escape(name), text)
-        status = m.group(1) if m else "missing"
+        ran = re.search(r"test \S*::%s \.\.\." % re.escape(name), text)
+        failed = re.search(r"^    \S*::%s$" % re.escape(name), text, re.M) or re.search(r"\S*::%s \.\.\. FAILED" % re.escape(name), text)
+        status = "missing" if not ran else ("FAILED" if failed else "ok")
         msg = None
         clause = None
         if status != "ok":
